@@ -701,3 +701,37 @@ M('arnoldi-reorth-keeps-stale-norm', 'C07,C01', 'residual-norm-tracks-residual',
 M('arnoldi-compress-forgets-norm', 'C07,C01', 'residual-norm-tracks-residual',
   [('LinAlg/Arnoldi.h', '''        m_fac_f.swap(fk);
         m_beta = m_op.norm(m_fac_f);''', '''        m_fac_f.swap(fk);''')], 'after an implicit restart the convergence test uses the old residual norm')
+
+# ----------------------------------------------------------------------------- C13 pointer kernels (dense model)
+M('hessqr-row-update-runs-past-last-column', 'C13', 'pointer-kernel-contracts',
+  [(Q, 'for (Index j = i + 1; j < m_n; j++, ptr += m_n)', 'for (Index j = i + 1; j <= m_n; j++, ptr += m_n)')])
+M('hessqr-fill-range-too-long', 'C13', 'pointer-kernel-contracts',
+  [(Q, 'std::fill(Rii + 2, Rii + m_n - i, Scalar(0));', 'std::fill(Rii + 2, Rii + m_n - i + 1, Scalar(0));')], 'writes the first entry of the next column / past the matrix for the last column')
+M('hessqr-RQ-column-height', 'C13', 'pointer-kernel-contracts',
+  [(Q, 'const Index i2 = i + 2;', 'const Index i2 = i + 3;')], 'row i + 2 = n for the last rotation')
+M('hessqr-applyYQ-row-count', 'C13', 'pointer-kernel-contracts',
+  [(Q, 'for (Index j = 0; j < nrow; j++)', 'for (Index j = 0; j <= nrow; j++)')])
+M('tridiagqr-rotation-pointer-double-step', 'C13', 'pointer-kernel-contracts',
+  [(Q, '''            c++;
+            s++;
+
+            // If we do not need to calculate the R matrix, then''', '''            c += 2;
+            s++;
+
+            // If we do not need to calculate the R matrix, then''')], 'cosine pointer leaves the array after n/2 rotations')
+M('ds-compute-deflation-scan-last-row', 'C13', 'pointer-kernel-contracts',
+  [(D, '''        for (Index i = 0; i < m_n - 1; i++, Hii += (m_n + 1))
+        {
+            // Hii[0] => m_mat_H(i, i)''', '''        for (Index i = 0; i < m_n; i++, Hii += (m_n + 1))
+        {
+            // Hii[0] => m_mat_H(i, i)''')], 'reads H(n, n-1) and H(n, n)')
+M('ds-applyPX-reads-third-row-of-two-row-block', 'C13', 'pointer-kernel-contracts',
+  [(D, '''        if (nr == 2 || nrow == 2)
+        {
+            for (Index i = 0; i < ncol; i++, xptr += stride)''', '''        if (nr == 2)
+        {
+            for (Index i = 0; i < ncol; i++, xptr += stride)''')], 'a 3-entry reflector applied to a 2-row block reads row 2')
+M('ds-reflector-storage-column', 'C13', 'pointer-kernel-contracts',
+  [(D, 'Scalar* u = &m_ref_u.coeffRef(0, ind);', 'Scalar* u = &m_ref_u.coeffRef(1, ind);')], 'u[2] is the first entry of the next column')
+M('ds-chase-window-one-row-low', 'C13', 'pointer-kernel-contracts',
+  [(D, 'compute_reflector(&m_mat_H.coeffRef(il + i, il + i - 1), il + i);', 'compute_reflector(&m_mat_H.coeffRef(il + i + 1, il + i - 1), il + i);')], '3-row window may end at row iu + 1')
